@@ -225,6 +225,8 @@ def real_tokens(repo, sec, log):
         elif r == "R39":
             ss = rtok.apply_cut_loop(ss, log, label)
         else:
+            if r not in rtok.RULES:
+                raise UnitError("unknown rewrite rule %s in the directive of %s" % (r, label))
             ss, n = rtok.RULES[r].apply(ss, log, label)
     if "rename" in kv:
         old = sec["spec"].split(" :: ")[-1].split()[-1]
